@@ -1,29 +1,34 @@
 import RsslVerif.Model.Meta
 import RsslVerif.Model.MetaReach
+import RsslVerif.Model.MetaFront
 import RsslVerif.Driver.Util
 /-!
 Line-protocol front end of the C05 model.
 
-request : C05.meta \t <dx|vk|vkba|msl> \t <all|name=P|nopipeline> \t <nstatics> \t <resources> \t <helpers> \t <entries> \t <pipes>
-  resource : name:kind:group:arr:ss:bl:st     kind = ObjectType name | cbuffer; group = - | n; arr = - | n | u;
-                                               ss, bl = 0 | 1; st = e | s
-  helper   : name:uses:calls:statics          comma separated indices (uses -> resources, calls -> helpers)
-  entry    : name:stage:uses:calls:statics:x.y.z|-
-  pipe     : name:dflt|-:entry indices
-answer  : per built pipeline  M[..] A[..] S[..] F[..]  joined by " ## "  (see harness/src/c05.rs)
+request : C05.meta \t <dx|vk|vkba|msl> \t <all|name=P|nopipeline> \t <globals> \t <resources> \t <helpers> \t <entries> \t <pipes>
+  (field syntax: harness/src/c05/case.rs)
+answer  : per built pipeline  M[..] A[..] S[..] F[..]  joined by " ## ", or err:<Class>  (see harness/src/c05.rs)
 -/
 namespace RsslVerif.Driver.C05
 open RsslVerif.Gen.SlotTables RsslVerif.Gen.MetaTables RsslVerif.Gen.CompileTables
-open RsslVerif.Model.Slots RsslVerif.Model.Meta RsslVerif.Model.MetaReach RsslVerif.Driver
+open RsslVerif.Model.Slots RsslVerif.Model.Meta RsslVerif.Model.MetaReach RsslVerif.Model.MetaFront RsslVerif.Driver
+open RsslVerif.Model (Names.build)
 
 structure Res where
   name : String
-  kind : Option ObjKind   -- none = cbuffer
+  cb : Bool
+  /-- peeled object kind; none for a cbuffer, for a struct-typed global and for a multi-dimensional array -/
+  kind : Option ObjKind
   group : Option Nat
   arr : Arr
   ss : Bool
   bl : Bool
   st : Storage
+  /-- a cbuffer without members: nothing can mention it -/
+  empty : Bool
+  /-- an explicit language-level binding index is written (register index or vk::binding index) -/
+  hasIndex : Bool
+  ns : Bool
 
 structure Fn where
   name : String
@@ -32,28 +37,68 @@ structure Fn where
   statics : List Nat
   stage : Option Stage
   threads : Option (Nat × Nat × Nat)
+  dflt : List Nat
+  inits : List Nat
+  nt : Nat
+
+structure Init where
+  uses : List Nat
+  calls : List Nat
+  prev : List Nat
+  statics : List Nat
 
 structure Pipe where
   name : String
   dflt : Option Nat
   stages : List Nat
+  /-- the block carries a property only a graphics pipeline may have (`gs<k>`; `gb<k>` = blend state blocks only) -/
+  gstate : Bool
 
 def splitList (s : String) (sep : String) : List String := if s.isEmpty then [] else s.splitOn sep
 
 def natList? (s : String) : Option (List Nat) := sequenceOpt ((splitList s ",").map (·.toNat?))
 
+/-- a use is an index with an optional shape letter (the statement it is wrapped in does not matter here) -/
+def useList? (s : String) : Option (List Nat) :=
+  sequenceOpt ((splitList s ",").map fun x =>
+    match x.toList.getLast? with
+    | some c => if c.isDigit then x.toNat? else (x.dropEnd 1).toString.toNat?
+    | none => none)
+
 def flag? (s : String) : Option Bool := if s == "1" then some true else if s == "0" then some false else none
 
+def optsOf (parts : List String) (n : Nat) : List String :=
+  match parts[n]? with
+  | some o => splitList o "+"
+  | none => []
+
+def parseArr (kind : Option ObjKind) (s : String) : Option (Option ObjKind × Arr) :=
+  if s == "-" then some (kind, Arr.no)
+  else if s == "u" then some (kind, Arr.unsized)
+  else if (s.splitOn "x").length == 2 then
+    -- two dimensions: peeling one array layer leaves an array, not an object
+    match (s.splitOn "x").map (·.toNat?) with
+    | [some a, some _] => some (none, Arr.sized a)
+    | _ => none
+  else s.toNat?.map fun n => (kind, Arr.sized n)
+
 def parseRes (s : String) : Option Res :=
-  match s.splitOn ":" with
+  let parts := s.splitOn ":"
+  match parts.take 7 with
   | [name, kind, group, arr, ss, bl, st] => do
-    let kind ← if kind == "cbuffer" then some none else (ObjKind.ofName? kind).map some
+    if parts.length > 8 then none
+    let cb := kind == "cbuffer"
+    let k ← if cb || kind == "struct" then some none else (ObjKind.ofName? kind).map some
     let group ← optNat? group
-    let arr ← if arr == "-" then some Arr.no else if arr == "u" then some Arr.unsized else arr.toNat?.map Arr.sized
+    let (k, arr) ← parseArr k arr
     let ss ← flag? ss
     let bl ← flag? bl
     let st ← if st == "e" then some Storage.extern else if st == "s" then some Storage.static else none
-    pure { name, kind, group, arr, ss, bl, st }
+    let opts := optsOf parts 7
+    pure { name, cb, kind := k, group, arr, ss, bl, st, empty := opts.contains "E",
+           -- `[[vk::binding(i, g)]]` always carries an index
+           hasIndex := opts.any (fun o => o.startsWith "ri" || o.startsWith "vi") || (opts.contains "gv" && group.isSome),
+           ns := opts.contains "ns" }
   | _ => none
 
 def parseStage (s : String) : Option Stage :=
@@ -65,35 +110,76 @@ def parseThreads (s : String) : Option (Option (Nat × Nat × Nat)) :=
   | [some x, some y, some z] => some (some (x, y, z))
   | _ => none
 
+def optList? (opts : List String) (pre : String) : Option (List Nat) :=
+  match opts.find? (fun o => o.startsWith pre) with
+  | some o => natList? (o.drop pre.length).toString
+  | none => some []
+
 def parseHelper (s : String) : Option Fn :=
-  match s.splitOn ":" with
+  let parts := s.splitOn ":"
+  match parts.take 4 with
   | [name, uses, calls, statics] => do
-    pure { name, uses := ← natList? uses, calls := ← natList? calls, statics := ← natList? statics,
-           stage := none, threads := none }
+    let opts := optsOf parts 4
+    pure { name, uses := ← useList? uses, calls := ← natList? calls, statics := ← natList? statics,
+           stage := none, threads := none, dflt := ← optList? opts "d", inits := [], nt := 0 }
   | _ => none
 
 def parseEntry (s : String) : Option Fn :=
-  match s.splitOn ":" with
+  let parts := s.splitOn ":"
+  match parts.take 6 with
   | [name, stage, uses, calls, statics, threads] => do
-    pure { name, uses := ← natList? uses, calls := ← natList? calls, statics := ← natList? statics,
-           stage := some (← parseStage stage), threads := ← parseThreads threads }
+    let opts := optsOf parts 6
+    let nt ← match opts.find? (·.startsWith "nt") with
+      | some o => (o.drop 2).toString.toNat?
+      | none => some 0
+    pure { name, uses := ← useList? uses, calls := ← natList? calls, statics := ← natList? statics,
+           stage := some (← parseStage stage), threads := ← parseThreads threads, dflt := [],
+           inits := ← optList? (opts.filter (fun o => !o.startsWith "nt")) "i", nt }
   | _ => none
 
 def parsePipe (s : String) : Option Pipe :=
-  match s.splitOn ":" with
-  | [name, dflt, stages] => do pure { name, dflt := ← optNat? dflt, stages := ← natList? stages }
+  let parts := s.splitOn ":"
+  match parts.take 3 with
+  | [name, dflt, stages] => do
+    let opts := optsOf parts 3
+    pure { name, dflt := ← optNat? dflt, stages := ← natList? stages, gstate := opts.any (·.startsWith "gs") }
   | _ => none
 
-/-- root definitions in the order the generated file declares them:
-    struct CbS; statics; two structs; groupshared payload; resources; (functions contribute nothing) -/
-def declsOf (nstatics : Nat) (rs : List Res) : List MDecl × Nat :=
-  let pre : List MDecl :=
-    [.other] ++ (List.range nstatics).map (fun k => .global ("s_value" ++ toString k) none false none .no false .static) ++
-    [.other, .other, .global "lds_payload" none false none .no false .groupshared]
-  (pre ++ rs.map fun r =>
-    match r.kind with
-    | none => .cbuffer r.name r.group
-    | some k => .global r.name r.group r.ss (some k) r.arr r.bl r.st, pre.length)
+def parseInit (s : String) : Option Init :=
+  match s.splitOn ":" with
+  | [uses, calls, prev, statics] => do
+    pure { uses := ← natList? uses, calls := ← natList? calls, prev := ← natList? prev, statics := ← natList? statics }
+  | _ => none
+
+/-- `nstatics[;L1][;I<uses>:<calls>:<prev>:<statics>]*` -/
+def parseGlobals (s : String) : Option (Nat × Bool × List Init) :=
+  match s.splitOn ";" with
+  | [] => none
+  | n :: rest => do
+    let n ← n.toNat?
+    let inits ← sequenceOpt ((rest.filter (·.startsWith "I")).map fun g => parseInit (g.drop 1).toString)
+    if rest.any (fun g => !(g == "L1" || g.startsWith "I")) then none
+    pure (n, rest.contains "L1", inits)
+
+/-- the numthreads attributes an entry point is written with -/
+def attrsOf (f : Fn) : List (Nat × Nat × Nat) :=
+  match f.threads with
+  | none => []
+  | some (x, y, z) => if f.nt == 3 then [(x + 1, y, z), (x, y, z)] else [(x, y, z)]
+
+/-- entry points that get a `static const uint c_nt<k>` -/
+def ntConsts (entries : List Fn) : List Nat :=
+  (List.range entries.length).filter fun k =>
+    match entries[k]? with
+    | some f => f.threads.isSome && (f.nt == 1 || f.nt == 2)
+    | none => false
+
+/-- order in which the entry points are defined: declaration order, or (layout 1) the order in which the
+    pipelines first mention them, the rest afterwards -/
+def entryOrder (layout1 : Bool) (n : Nat) (pipes : List Pipe) : List Nat :=
+  if !layout1 then List.range n else
+  let first := (pipes.flatMap (·.stages)).foldl (fun acc k => if acc.contains k then acc else acc ++ [k]) []
+  first ++ (List.range n).filter (fun k => !first.contains k)
 
 def showLoc : Loc → String
   | .index i => "i" ++ toString i
@@ -131,35 +217,133 @@ def targetParams (tgt : String) : Option (Bool × Params) :=
   else if tgt == "msl" then some (true, paramsFor .Msl false)
   else none
 
+/-- everything a request describes -/
+structure Prog where
+  nstatics : Nat
+  layout1 : Bool
+  inits : List Init
+  rs : List Res
+  helpers : List Fn
+  entries : List Fn
+  pipes : List Pipe
+
+/-- namespace id of resource `i` (the `ns` resources get one namespace each, in declaration order) -/
+def nsOf (rs : List Res) (i : Nat) : Option Nat :=
+  match rs[i]? with
+  | some r => if r.ns then some ((rs.take i).filter (·.ns)).length else none
+  | none => none
+
+/-- what `NameMap::build` sees of the generated file on a target (Metal: after `simplify_cbuffers`) -/
+def nameSrc (msl : Bool) (pg : Prog) : NameSrc :=
+  let idx := List.range pg.rs.length
+  let cbs := idx.filter fun i => match pg.rs[i]? with | some r => r.cb | none => false
+  let globs := idx.filter fun i => match pg.rs[i]? with | some r => !r.cb | none => false
+  let nm := fun i => match pg.rs[i]? with | some r => r.name | none => ""
+  { nss := (idx.filter fun i => (nsOf pg.rs i).isSome).map fun i => (none, "NS" ++ toString i),
+    structs := [(none, "CbS"), (none, "ResS"), (none, "MeshVertex"), (none, "TaskPayload")] ++
+      (if msl then cbs.map fun i => (nsOf pg.rs i, nm i ++ "Type") else []),
+    globals := (List.range pg.nstatics).map (fun k => (none, "s_value" ++ toString k)) ++
+      (ntConsts pg.entries).map (fun k => (none, "c_nt" ++ toString k)) ++ [(none, "lds_payload")] ++
+      globs.map (fun i => (nsOf pg.rs i, nm i)) ++
+      (List.range pg.inits.length).map (fun k => (none, "s_init" ++ toString k)) ++
+      (if msl then cbs.map fun i => (nsOf pg.rs i, nm i) else []),
+    funcs := pg.helpers.map (fun f => (none, f.name)) ++
+      (entryOrder pg.layout1 pg.entries.length pg.pipes).map fun k =>
+        (none, match pg.entries[k]? with | some f => f.name | none => "") }
+
+/-- position of a value in a list -/
+def indexOf? (l : List Nat) (x : Nat) : Option Nat :=
+  match l.findIdx? (· == x) with
+  | some i => some i
+  | none => none
+
+/-- names the exporter prints: (per resource, per entry point) -/
+def emittedNames (msl : Bool) (pg : Prog) : Except String (List String × List String) :=
+  let src := nameSrc msl pg
+  match Names.build (if msl then mslReserved else hlslReserved) src.input with
+  | .error e => .error e
+  | .ok names =>
+    let idx := List.range pg.rs.length
+    let cbs := idx.filter fun i => match pg.rs[i]? with | some r => r.cb | none => false
+    let globs := idx.filter fun i => match pg.rs[i]? with | some r => !r.cb | none => false
+    let base := pg.nstatics + (ntConsts pg.entries).length + 1
+    let resName : Nat → Except String String := fun i =>
+      match pg.rs[i]? with
+      | none => .error "bad index"
+      | some r =>
+        if r.cb then
+          -- HLSL prints and reports a cbuffer block under its source name
+          if !msl then .ok r.name else
+          match indexOf? cbs i with
+          | some k => leaf names .global (base + globs.length + pg.inits.length + k)
+          | none => .error "bad index"
+        else
+          match indexOf? globs i with
+          | some k => leaf names .global (base + k)
+          | none => .error "bad index"
+    let order := entryOrder pg.layout1 pg.entries.length pg.pipes
+    let entName : Nat → Except String String := fun k =>
+      match indexOf? order k with
+      | some pos => leaf names .func (pg.helpers.length + pos)
+      | none => .error "bad index"
+    let collect : (Nat → Except String String) → Nat → Except String (List String) := fun f n =>
+      (List.range n).foldr (fun i acc =>
+        match f i, acc with
+        | .ok x, .ok r => .ok (x :: r)
+        | .error e, _ => .error e
+        | _, .error e => .error e) (.ok [])
+    match collect resName pg.rs.length, collect entName pg.entries.length with
+    | .ok a, .ok b => .ok (a, b)
+    | .error e, _ => .error e
+    | _, .error e => .error e
+
+/-- root definitions in the order the generated file declares them:
+    struct CbS; struct ResS; statics; numthreads constants; two structs; groupshared payload; resources;
+    s_init globals (functions contribute nothing).  Returns the list and the position of the first resource. -/
+def declsOf (pg : Prog) (resNames : List String) : List MDecl × Nat :=
+  let plain := fun (n : String) => MDecl.global n none false none .no false .static
+  let pre : List MDecl :=
+    [.other, .other] ++ (List.range pg.nstatics).map (fun k => plain ("s_value" ++ toString k)) ++
+    (ntConsts pg.entries).map (fun k => plain ("c_nt" ++ toString k)) ++
+    [.other, .other, .global "lds_payload" none false none .no false .groupshared]
+  let res := (List.range pg.rs.length).map fun i =>
+    match pg.rs[i]? with
+    | none => MDecl.other
+    | some r =>
+      let n := resNames.getD i r.name
+      if r.cb then .cbuffer n r.group else .global n r.group r.ss r.kind r.arr r.bl r.st
+  (pre ++ res ++ (List.range pg.inits.length).map (fun k => plain ("s_init" ++ toString k)), pre.length)
+
 /-- one `build_pipeline` -/
-def buildOne (msl : Bool) (p : Params) (nstatics : Nat) (rs : List Res) (helpers entries : List Fn)
-    (pipe : Option Pipe) : String :=
-  let (ds, off) := declsOf nstatics rs
-  let dflt := match pipe with | some pp => pp.dflt.getD 0 | none => 0
-  let reserved := if msl then mslReserved else hlslReserved
-  -- names the model cannot follow through the name generator (C15)
-  if (rs.any fun r => reserved.contains r.name) then "unsupported-renamed-global" else
-  let funcs := helpers ++ entries
-  let nh := helpers.length
-  -- overloads are renamed by the name generator, possibly onto another function's name (C15)
-  if !(funcs.map (·.name)).Nodup && !msl then "unsupported-overloaded-names" else
-  let stageIds := match pipe with | some pp => pp.stages | none => []
-  if stageIds.any (fun k => match entries[k]? with | some f => reserved.contains f.name | none => true) && !msl then
-    "unsupported-renamed-entry" else
-  -- globals: statics are at positions 1.., resources at off..
+def buildOne (msl : Bool) (p : Params) (pg : Prog) (pipe : Option PipeDef) : String :=
+  match emittedNames msl pg with
+  | .error e => "panic:" ++ e
+  | .ok (resNames, entNames) =>
+  let (ds, off) := declsOf pg resNames
+  let dflt := match pipe with | some pp => pp.dflt | none => 0
+  let funcs := pg.helpers ++ pg.entries
+  let nres := pg.rs.length
+  let mentionable := fun r => match pg.rs[r]? with | some x => !x.empty | none => false
   let direct : Sym → List Sym := fun k =>
     match k with
-    | .glob _ => []   -- the generated globals have constant initialisers (or none)
+    | .glob g =>
+      -- only the s_init globals have an initialiser that mentions other symbols
+      if g < off + nres then [] else
+      match pg.inits[g - (off + nres)]? with
+      | none => []
+      | some i => i.uses.map (fun r => Sym.glob (off + r)) ++ i.calls.map Sym.fn ++
+                  i.prev.map (fun j => Sym.glob (off + nres + j)) ++ i.statics.map (fun j => Sym.glob (2 + j))
     | .fn f =>
       match funcs[f]? with
       | none => []
-      | some fd => fd.uses.map (fun r => Sym.glob (off + r)) ++ fd.calls.map Sym.fn ++
-                   fd.statics.map (fun k => Sym.glob (1 + k))
+      | some fd => ((fd.uses ++ fd.dflt).filter mentionable).map (fun r => Sym.glob (off + r)) ++ fd.calls.map Sym.fn ++
+                   fd.statics.map (fun j => Sym.glob (2 + j)) ++ fd.inits.map (fun j => Sym.glob (off + nres + j))
   let keys := (List.range funcs.length).map Sym.fn ++ (List.range ds.length).map Sym.glob
-  match recurse (funcs.length + 2) keys direct with
+  let stageRecs := match pipe with | some pp => pp.stages | none => []
+  match recurse (funcs.length + ds.length + 2) keys direct with
   | none => "unsupported-fuel"
   | some req =>
-    let usedAt := fun i => usedBy req (stageIds.map (nh + ·)) i
+    let usedAt := fun i => usedBy req (stageRecs.map (·.entry)) i
     let slots := assign p dflt (ds.map MDecl.toSlot)
     let metaR := if msl then mslMeta p dflt usedAt ds else hlslMeta p dflt ds
     match slots, metaR with
@@ -175,44 +359,69 @@ def buildOne (msl : Bool) (p : Params) (nstatics : Nat) (rs : List Res) (helpers
         let bufAnns := if msl && pipe.isSome then
           (List.range groups.length).map fun i => "set" ++ toString i ++ "=>" ++ String.ofList (printBuffer i) else []
         let anns := if msl && pipe.isNone then [] else anns.map fun (n, a) => showAnnot n a
-        let fdefs : List FuncDef := entries.map fun f => { name := f.name, emitted := f.name, numthreads := f.threads }
-        let sdefs : List StageDef := stageIds.filterMap fun k =>
-          match entries[k]? with
-          | some f => f.stage.map fun st => { stage := st, entry := k }
-          | none => none
+        -- function table indexed like `funcs` (helpers first): only the entry points matter to the stage records
+        let fdefs : List FuncDef :=
+          pg.helpers.map (fun f => { name := f.name, emitted := f.name, attrs := [] }) ++
+          (List.range pg.entries.length).map fun k =>
+            match pg.entries[k]? with
+            | some f => { name := f.name, emitted := entNames.getD k f.name, attrs := attrsOf f }
+            | none => { name := "", emitted := "", attrs := [] }
+        let sdefs : List StageDef := stageRecs.map fun s => { stage := s.stage, entry := s.entry }
         let reported := sdefs.filterMap (reportStage msl fdefs)
         let emitted := sdefs.filterMap (emittedStage msl fdefs)
-        let showEm := fun (x : String × Option (Nat × Nat × Nat)) =>
-          x.1 ++ ":" ++ (if msl then (match x.2 with | none => "-" | some (a, b, c) => toString (a * b * c)) else showThreads x.2)
+        let showT := fun (t : Nat × Nat × Nat) =>
+          if msl then toString (t.1 * t.2.1 * t.2.2) else showThreads (some t)
+        let showEm := fun (x : String × List (Nat × Nat × Nat)) =>
+          x.1 ++ ":" ++ (if x.2.isEmpty then "-" else "/".intercalate (x.2.map showT))
         "M[" ++ "|".intercalate (groups.map showGroup) ++ "] A[" ++
           ";".intercalate (sortStrs (anns ++ inlineAnns ++ bufAnns)) ++ "] S[" ++
           ",".intercalate (reported.map fun s => s.stage.name ++ ":" ++ s.entryPoint ++ ":" ++ showThreads s.threadGroupSize) ++
           "] F[" ++ ",".intercalate (emitted.map showEm) ++ "]"
 
+/-- the front end: resource declarations first (they precede every Pipeline block), then the pipelines -/
+def frontEnd (pg : Prog) : Except FrontErr (List PipeDef) :=
+  if pg.rs.any (fun r => r.ss && r.hasIndex && !r.cb) then .error .StaticSamplerUnexpectedBindingIndex else
+  -- the user's functions, numbered like `funcs` in `buildOne`, then the intrinsic functions of the registry
+  let fns : List FnSrc := (pg.helpers ++ pg.entries).map (fun f =>
+    { name := f.name, attrs := attrsOf f, hasBody := true, isTemplate := false }) ++
+    intrinsicFunctionNames.map (fun n => { name := n, attrs := [], hasBody := false, isTemplate := false })
+  let srcs : List PipeSrc := pg.pipes.map fun pp =>
+    { name := pp.name,
+      stages := pp.stages.filterMap (fun k => match pg.entries[k]? with
+        | some f => f.stage.map fun st => (st, f.name)
+        | none => none),
+      dflt := pp.dflt, graphicsProps := pp.gstate }
+  -- `addStage` numbers the functions over helpers ++ entries, like `funcs` in `buildOne`
+  parsePipelines fns [] srcs
+
 def handle (op : String) (args : List String) : String :=
   match op, args with
-  | "C05.meta", [tgt, mode, nstatics, rs, hs, es, ps] =>
-    match targetParams tgt, nstatics.toNat?, sequenceOpt ((splitList rs ";").map parseRes),
+  | "C05.meta", [tgt, mode, gl, rs, hs, es, ps] =>
+    match targetParams tgt, parseGlobals gl, sequenceOpt ((splitList rs ";").map parseRes),
           sequenceOpt ((splitList hs ";").map parseHelper), sequenceOpt ((splitList es ";").map parseEntry),
           sequenceOpt ((splitList ps ";").map parsePipe) with
-    | some (msl, p), some ns, some rs, some hs, some es, some ps =>
-      if mode == "nopipeline" then buildOne msl p ns rs hs es none
-      else if mode == "all" then
-        if ps.isEmpty then "err:none" else
-        let parts := ps.map fun pp => buildOne msl p ns rs hs es (some pp)
-        match parts.find? (·.startsWith "unsupported") with
-        | some u => u
-        | none =>
-          -- compile() stops at the first pipeline that fails to export
-          match parts.find? (·.startsWith "err:") with
-          | some e => e
-          | none => " ## ".intercalate parts
-      else if mode.startsWith "name=" then
-        let n := (mode.drop 5).toString
-        match ps.find? (fun pp => pp.name == n) with
-        | some pp => buildOne msl p ns rs hs es (some pp)
-        | none => "err:unknown"
-      else "bad-request"
+    | some (msl, p), some (ns, l1, inits), some rs, some hs, some es, some ps =>
+      let pg : Prog := { nstatics := ns, layout1 := l1, inits, rs, helpers := hs, entries := es, pipes := ps }
+      match frontEnd pg with
+      | .error e => "err:" ++ e.name
+      | .ok defs =>
+        if mode == "nopipeline" then buildOne msl p pg none
+        else if mode == "all" then
+          if defs.isEmpty then "err:none" else
+          let parts := defs.map fun d => buildOne msl p pg (some d)
+          match parts.find? (·.startsWith "unsupported") with
+          | some u => u
+          | none =>
+            -- compile() stops at the first pipeline that fails to export
+            match parts.find? (·.startsWith "err:") with
+            | some e => e
+            | none => " ## ".intercalate parts
+        else if mode.startsWith "name=" then
+          let n := (mode.drop 5).toString
+          match defs.find? (fun d => d.name == n) with
+          | some d => buildOne msl p pg (some d)
+          | none => "err:unknown"
+        else "bad-request"
     | _, _, _, _, _, _ => "bad-request"
   | _, _ => "unsupported-op"
 
